@@ -16,7 +16,7 @@ RULE = ('round trips over the shape alphabet x D x P x value kinds {random, inte
         'scipy.linalg.lu_factor; a class = (conversion, shape/UPLO/N, D, P, value kind); non-trivial = more than one '
         'element or a non-identity permutation')
 ASSUMPTIONS = ['numpy.block / numpy.triu_indices / own cycle count are the independent models']
-NMAX = {'quick': 6, 'thorough': 8}
+NMAX = {'quick': 6, 'thorough': 9}
 SHAPES = [(), (1,), (3,), (2, 3), (3, 1), (2, 1, 2)]
 REQUIRED = ['base_and_dirs', 'utpm2dirs', 'symvec_vecsym', 'vecsym_symvec', 'as_utpm', 'ndarray2utpm', 'shift',
             'combine_blocks', 'coeff_op', 'piv2mat', 'piv2det', 'piv_plu']
@@ -25,7 +25,7 @@ EXHAUSTIVE_NOTE = 'pivot vectors enumerated completely up to Nmax'
 
 def cases(tier, seed):
     out = []
-    Ds = [1, 2, 4] if tier == 'quick' else [1, 2, 3, 5, 7]
+    Ds = [1, 2, 4] if tier == 'quick' else [1, 2, 3, 4, 5, 7, 9]
     Ps = [1, 2] if tier == 'quick' else [1, 2, 3, 5]
     kinds = ['random', 'integers', 'nonfinite', 'complex']
     for D in Ds:
